@@ -24,7 +24,7 @@ MANIFEST = {
             "own output (incl. statement positions as pest reports them), and format(format(p,w),w) == format(p,w) "
             "searched on the implementation through the library loop and the real blots --format binary; REPARSE stream: "
             "the formatter's outputs re-parsed by the parser model and by the real parser (commented-AST dump with comment "
-            "roles and statement lines), with the content hypothesis of the second-pass theorems checked on every program",
+            "roles and statement lines), with the content hypothesis of the second-pass theorems checked on every program; round 7: INFLATED family in the idempotence search (the generated programs with wide gaps after commas, deep indentation, one item per line; hand-aligned tables) after seed C08-11 (layout decided from the byte span of the source)",
     "note": "trusted: Coq kernel + vm_compute; hand transcription of formatter.rs and of both driver loops (validated "
             "by the FORMAT correspondence, incl. second pass); the parser is modelled (coq/Peg.v + gen/Grammar.v + "
             "coq/PegComments.v, compared with the real parser by the REPARSE / C09P streams) but that the text of a layout "
